@@ -1,6 +1,6 @@
 """C18 - ska lo indel calls are real and genotyped correctly."""
 import os, json
-import vlib, lodrv
+import vlib, lodrv, derive
 from props import c17
 
 
@@ -24,6 +24,19 @@ def run(run, tier, seed):
     # substitution next to it) of MC_LoIndel; the hooked `ska lo` must build the same SNP groups and indel groups
     c17.replay_entries(run, tier, seed, module="MC_LoIndel", tag="c18-graph", nq=300, nt=20000, declarative=False)   # k = 5 is outside C18's k-domain: conformance only
     events = lodrv.indel_events(run, tier, seed + 18, "c18")
+    if tier != "quick":
+        # the same universe INSIDE C18's stated domain (k = 11, a 52-base ancestor with unique 10-mers): every deletion / tandem
+        # duplication of 1-4 bases at every position x every carrier set of 3 samples; besides the conformance replay each run
+        # becomes a planted-indel event whose records TLC judges by C18's own clauses (real difference, matches the planted
+        # indel, not reported twice; counted for the 90 % clause)
+        extra = []
+        c17.replay_entries(run, tier, seed, module="MC_LoIndel", tag="c18-graph11", nt=20000, declarative=False,
+                           cfg="MC_LoIndel_k11", indel_events=extra)
+        pre = derive.mers_unique_per_position
+        for e in extra:
+            e["ctx"]["pre_strict"] = all(pre([[{"seq": bytes(r["seq"]).decode(), "off": 0, "rev": False} for r in recs]][:1], e["ctx"]["k"] - 1)
+                                         for recs in e["ctx"]["samples"])
+        events += extra
     c17.finish(run, events, "c18", tier)
     # "at least 90% reported" is a statement about a rate; a run observes a finite sample of it. To keep sampling
     # noise from raising an alarm, a stratum fails only when the observed count is significantly below 90%
@@ -31,9 +44,14 @@ def run(run, tier, seed):
     from math import comb
 
     def too_few(planted, reported):
-        p = sum(comb(planted, i) * 0.9 ** i * 0.1 ** (planted - i) for i in range(0, reported + 1))
-        return planted >= 10 and reported * 10 < planted * 9 and p < 0.001
-
+        # P[Binomial(planted, 0.9) <= reported], summed in log space (planted can be in the thousands)
+        from math import lgamma, log, exp
+        if not (planted >= 10 and reported * 10 < planted * 9):
+            return False
+        lp = [lgamma(planted + 1) - lgamma(i + 1) - lgamma(planted - i + 1) + i * log(0.9) + (planted - i) * log(0.1)
+              for i in range(0, min(reported, planted) + 1)]
+        m = max(lp)
+        return m + log(sum(exp(x - m) for x in lp)) < log(0.001)
     for label, pk, rk in (("generic", "indels_planted", "indels_reported"), ("tandem", "tandem_indels_planted", "tandem_indels_reported")):
         planted, reported = run.extra[pk], run.extra[rk]
         run.extra[label + "_recall_test"] = "planted=%d reported=%d" % (planted, reported)
